@@ -115,7 +115,15 @@ func createStepCmafIngesterHdlr(s *Server) func(ctx context.Context, input *idIn
 		if !ok {
 			return nil, huma.Error404NotFound(fmt.Sprintf("CMAF ingest %s not found", input.Id))
 		}
-		ci.triggerNextSegment()
+		if ci.state == ingesterStateStopped {
+			return nil, huma.Error410Gone(fmt.Sprintf("CMAF ingest %s has stopped", input.Id))
+		}
+		// Nobody takes the trigger once the ingester has stopped: never wait longer than the request lives
+		select {
+		case ci.nextSegTrigger <- struct{}{}:
+		case <-ctx.Done():
+			return nil, huma.Error409Conflict(fmt.Sprintf("CMAF ingest %s did not take the step", input.Id))
+		}
 		resp := &CmafIngestStepResponse{}
 		resp.Body.ID = fmt.Sprintf("Stepped %s!", input.Id)
 		return resp, nil
